@@ -202,13 +202,16 @@ def apply_ops(od, side, ops):
 # ---------------------------------------------------------------------------------------------------------------------
 # worker
 
-def gen_into(ctx, cwd, fname, text, opts):
-    """asn1c -S skel <opts> -D out <fname> in cwd (the same relative names in every scratch directory)"""
+def gen_into(ctx, cwd, fname, text, opts, nodest=False):
+    """asn1c -S skel <opts> -D out <fname> in cwd (the same relative names in every scratch directory);
+    nodest: no -D, asn1c runs inside out/ and writes into its working directory (destdir = "")"""
     asn1c, skel, _ = ctx
     p = os.path.join(cwd, fname)
     os.makedirs(os.path.dirname(p), exist_ok=True)
     open(p, "w").write(text)
     os.makedirs(os.path.join(cwd, "out"), exist_ok=True)
+    if nodest:
+        return run_full([asn1c, "-S", skel] + list(opts) + ["../" + fname], os.path.join(cwd, "out"))
     return run_full([asn1c, "-S", skel] + list(opts) + ["-D", "out", fname], cwd)
 
 
@@ -219,6 +222,7 @@ def case_dir(ctx, idx, case):
     d = os.path.join(root, "d%05d" % idx)
     shutil.rmtree(d, ignore_errors=True)
     opts = OPTS[case["mode"]]
+    nd = bool(case.get("nodest"))
     res = {"states": [], "name": case["name"]}
     fname, text = "in/m.asn1", case.get("text")
     k = [0]
@@ -226,7 +230,7 @@ def case_dir(ctx, idx, case):
     def fresh_run(fn, tx):
         k[0] += 1
         w = os.path.join(d, "p%d" % k[0])
-        rc, so, se = gen_into(ctx, w, fn, tx, opts)
+        rc, so, se = gen_into(ctx, w, fn, tx, opts, nd)
         sn = snap(os.path.join(w, "out")) if rc == 0 else {}
         return rc, se, sn, w
 
@@ -307,7 +311,7 @@ def case_dir(ctx, idx, case):
             os.makedirs(w)
             shutil.copytree(os.path.join(w0, "out"), od, symlinks=True)
         else:
-            rcv, sov, sev = gen_into(ctx, w, fname, st["start_text"], OPTS[st.get("start_mode", case["mode"])])
+            rcv, sov, sev = gen_into(ctx, w, fname, st["start_text"], OPTS[st.get("start_mode", case["mode"])], nd)
             if rcv != 0:
                 st["prep_failed"] = sev[-300:]
         try:
@@ -315,7 +319,7 @@ def case_dir(ctx, idx, case):
         except OSError as e:
             st["prep_failed"] = str(e)
         B = snap(od)
-        rc, so, se = gen_into(ctx, w, fname, text, opts)
+        rc, so, se = gen_into(ctx, w, fname, text, opts, nd)
         A = snap(od)
         side = snap(os.path.join(w, "side")) if os.path.isdir(os.path.join(w, "side")) else {}
         res["states"].append({"st": st, "rc": rc, "se": se, "before": B, "after": A, "side": side})
@@ -343,14 +347,14 @@ def fdiff(x, y):
     return next((i for i, (p, q) in enumerate(zip(x, y)) if p != q), min(len(x), len(y)))
 
 
-def makefile_problems(F):
+def makefile_problems(F, pfx="out/"):
     """file-name de-duplication and completeness of Makefile.am.libasncodec, evaluated on one tree"""
     mk = F.get("Makefile.am.libasncodec")
     if not mk or mk[0] != "reg":
         return []
     txt = mk[1].decode("latin1")
-    listed = re.findall(r"(?:^ASN_MODULE_(?:SRCS|HDRS)\+=|\t)out/(\S+?)(?:\t\\)?$", txt, re.M)
-    probs = []
+    listed = re.findall(r"(?:^ASN_MODULE_(?:SRCS|HDRS)\+=|\t)%s([^\s\\]\S*?)(?:\t\\)?$" % pfx, txt, re.M)
+    probs = [] if listed else ["no file name found in the makefile"]
     seen = set()
     for f in listed:
         if f in seen:
@@ -424,7 +428,7 @@ def observed_entry(op, a, b, v):
     return "NEW" if a[0] == "reg" and a[1] == v[1] else "?"
 
 
-def classify(st, s, F, bad):
+def classify(st, s, F, bad, pfx="out/"):
     """known-finding classifiers of this layer (as narrow as the cause; see findings.d/C12.json).
     C12-inplace-file-through-symlink: the only stale entry is a symbolic link in place of one of the files asn1c rewrites in place
     (asn1c_open_file without a temporary: open(O_WRONLY) follows the link).  Link to a file: the link stays, the generated text is
@@ -434,7 +438,7 @@ def classify(st, s, F, bad):
     if len(ops) == 1 and ops[0][0] == "symlink" and ops[0][1] in INPLACE:
         f, how = ops[0][1], ops[0][2]
         if how == "dangling":
-            if s["rc"] == 70 and ("out/%s: No such file or directory" % f) in s["se"]:
+            if s["rc"] == 70 and ("%s%s: No such file or directory" % (pfx, f)) in s["se"]:
                 return "C12-inplace-file-through-symlink"
             return None
         tgt = s["side"].get(f + ".target")
@@ -459,11 +463,12 @@ def eval_dir(run, case, res, model_out=None):
         return
     F = res["fresh"]
     run.case("outdir:%s:%s" % (case["name"], mode))
-    run.count("outdir_base:" + mode)
+    run.count("outdir_base:" + mode + ("+nodest" if case.get("nodest") else ""))
     if case.get("target"):
         n = case["target"][1]
         run.count("outdir_target_size:%s" % ("<1 block" if n < BLOCK else "=%d blocks" % (n // BLOCK) if n % BLOCK == 0 else "%d blocks+%d" % (n // BLOCK, n % BLOCK)))
-    for p in makefile_problems(F):
+    pfx = "" if case.get("nodest") else "out/"
+    for p in makefile_problems(F, pfx):
         run.violation("oracle:makefile-list", dict(rep0, what="Makefile.am.libasncodec of the fresh run: " + p))
     run.count("makefile_list_checked")
     skel_link = mode == "link"
@@ -471,7 +476,7 @@ def eval_dir(run, case, res, model_out=None):
         st, B, A = s["st"], s["before"], s["after"]
         label = st["label"]
         rep = dict(rep0, state=label, stale_ops=[[x if not isinstance(x, bytes) else "<%d bytes>" % len(x) for x in o] for o in st["ops"]][:8],
-                   replay_cmd="asn1c -S skeletons %s -D out %s  into an EMPTY out/ and into out/ prepared as described; compare the two directories" % (" ".join(OPTS[mode]), fn_short))
+                   replay_cmd="asn1c -S skeletons %s -D out %s  into an EMPTY out/ and into out/ prepared as described; compare the two directories%s" % (" ".join(OPTS[mode]), fn_short, " (no -D: asn1c run INSIDE out/ on ../<file>)" if case.get("nodest") else ""))
         if st.get("start_text"):
             rep["stale_made_by"] = "asn1c %s on: %s" % (" ".join(OPTS[st.get("start_mode", mode)]), st["start_text"][:400])
         if "prep_failed" in st:
@@ -489,7 +494,7 @@ def eval_dir(run, case, res, model_out=None):
                 # documented: an entry that is already there is retained ("Retaining local … suggested" / "already here")
                 if a is None or a[:2] != b[:2]:
                     bad.append((f, "link mode: the existing entry was not retained"))
-                elif s["rc"] == 0 and not re.search(r"(Retaining local out/%s |is already here as out/%s$)" % (re.escape(f), re.escape(f)), s["se"], re.M):
+                elif s["rc"] == 0 and not re.search(r"(Retaining local %s%s |is already here as %s%s$)" % (pfx, re.escape(f), pfx, re.escape(f)), s["se"], re.M):
                     bad.append((f, "link mode: existing entry retained without the documented message"))
                 else:
                     run.count("outdir_link_retained_local")
@@ -509,7 +514,7 @@ def eval_dir(run, case, res, model_out=None):
                 if retained != equal:
                     bad.append((f, "stale file %s the new content but was %s" % ("equals" if equal else "differs from", "retained" if retained else "replaced")))
                 if is_per_type(f, F):
-                    said = ("Compiled out/%s%s\n" % (f, UNCH)) in s["se"]
+                    said = ("Compiled %s%s%s\n" % (pfx, f, UNCH)) in s["se"]
                     if said != equal:
                         bad.append((f, "`contents unchanged` %s although the old content %s the new one" % ("printed" if said else "not printed", "was" if equal else "was not")))
         if model_out is not None:
@@ -542,10 +547,10 @@ def eval_dir(run, case, res, model_out=None):
             x = [l for l in norm_se(s["se"]) if l not in norm_se(res["se0"])][:3]
             bad.append(("<diagnostics>", "messages differ from the fresh run beyond `contents unchanged`: %r" % x))
         if s["rc"] == 0:
-            for p in makefile_problems({k: v for k, v in A.items() if k in F}):
+            for p in makefile_problems({k: v for k, v in A.items() if k in F}, pfx):
                 bad.append(("Makefile.am.libasncodec", p))
         if bad:
-            cls = classify(st, s, F, bad)
+            cls = classify(st, s, F, bad, pfx)
             if cls:
                 run.known_finding(cls, "%s %s" % (case["name"], label))
                 run.count("outdir_known:" + cls)
@@ -585,6 +590,12 @@ def directed_cases(seed, quick=True):
     if not quick:
         skel_focus += ["asn_codecs.h", "converter-example.mk", "Makefile.am.asn1convert", "constr_SEQUENCE.c", "converter-example.c"]
     cases.append({"name": "DirS-copy", "mode": "copy", "text": dir_module(3), "members": 3, "variants": False, "seed": seed * 1000 + 21, "focus": skel_focus})
+    # no -D: destdir = "", asn1c writes into its working directory
+    cases.append({"name": "DirN-nodest", "mode": "copy", "nodest": True, "text": dir_module(3), "members": 3, "variants": True, "seed": seed * 1000 + 25,
+                  "focus": ["Makefile.am.libasncodec"] if quick else ["T.c", "T.h", "NativeInteger.c", "Makefile.am.libasncodec", "pdu_collection.c"]})
+    if not quick:
+        cases.append({"name": "DirN-nodest-link", "mode": "link", "nodest": True, "text": dir_module(3), "members": 3, "variants": True, "seed": seed * 1000 + 26,
+                      "focus": ["T.c", "NativeInteger.c"]})
     for j, mode in enumerate(["link", "noexample"]):
         cases.append({"name": "DirM-" + mode, "mode": mode, "text": dir_module(4), "members": 4, "variants": True, "seed": seed * 1000 + 30 + j,
                       "focus": ["T.c", "NativeInteger.c", "Makefile.am.libasncodec"] if not quick else [["NativeInteger.c"], ["Makefile.am.libasncodec"]][j]})
